@@ -9,6 +9,7 @@ import (
 	"io"
 	"net"
 	"net/http"
+	"os"
 	"sort"
 	"strings"
 	"sync"
@@ -105,20 +106,39 @@ func (p *seqPeer) serve(sc *seqConn, c net.Conn) {
 }
 
 type seqCall struct {
-	id   int
-	idem bool
-	done chan struct{}
-	err  error
+	id      int
+	idem    bool
+	done    chan struct{}
+	err     error
+	started time.Time
+	expired bool // its wait for a free connection was reported to the model as timed out
 }
 
 func init() {
 	register(&Unit{Name: "c10.seq", Props: []string{"C10"}, ShrinkOps: true, KeepPrefix: 2,
 		// in: MaxConns, wait, op...   ops: start:<idem>:<dialfail> | cancelled | finish:<k>:<outcome>:<dialfail> | expire | closeidle
 		Check: func(t *T, in In) []Finding {
+			// a difference is reported when the same history shows it twice (a late timer under load does not repeat)
+			fs := c10seqRun(t, in)
+			if len(fs) > 0 {
+				t.Count("histories-rerun-after-a-difference")
+				if again := c10seqRun(t, in); len(again) == 0 {
+					t.Count("histories-difference-not-reproduced")
+					return nil
+				}
+			}
+			return fs
+		},
+		Gen: c10seqGen})
+}
+
+func c10seqRun(t *T, in In) []Finding {
+	{
+		{
 			maxConns, wait := in.N(0), in.N(1) == 1
 			peer := &seqPeer{inflight: map[int]*seqConn{}}
 			opt := &http1.ClientOptions{Dialer: peer, MaxConns: maxConns, MaxIdleConnDuration: time.Hour}
-			const waitTimeout = 250 * time.Millisecond
+			const waitTimeout = 400 * time.Millisecond
 			if wait {
 				opt.MaxConnWaitTimeout = waitTimeout
 			}
@@ -155,6 +175,7 @@ func init() {
 					st.TotalConnNum, st.PoolConnNum, hc.WantConnectionCount(), hc.PendingRequests(), dials,
 					atomic.LoadInt32(&peer.closed), strings.Join(cs, ","))
 			}
+			suspect, diverged := false, false // diverged: an operation did not lead to the state the model predicts; the history ends there
 			margsFor := func(mops []string) [][]byte {
 				margs := [][]byte{[]byte(fmt.Sprint(maxConns)), []byte(map[bool]string{true: "1", false: "0"}[wait])}
 				for _, m := range mops {
@@ -169,6 +190,28 @@ func init() {
 				want := lines[len(lines)-1]
 				last, same := "", 0
 				deadline := time.Now().Add(3 * time.Second)
+				// do not wait into the next timer: the state to compare is the one before any further waiter gives up
+				if wait {
+					for _, c := range calls {
+						peer.mu.Lock()
+						_, inflight := peer.inflight[c.id]
+						peer.mu.Unlock()
+						select {
+						case <-c.done:
+							continue
+						default:
+						}
+						if c.expired || inflight || c.started.IsZero() {
+							continue
+						}
+						if d := c.started.Add(waitTimeout - 40*time.Millisecond); d.Before(deadline) {
+							deadline = d
+						}
+					}
+					if time.Until(deadline) < 30*time.Millisecond {
+						suspect = true
+					}
+				}
 				for time.Now().Before(deadline) {
 					s := snapshot()
 					if s == last {
@@ -181,18 +224,76 @@ func init() {
 					}
 					time.Sleep(700 * time.Microsecond)
 				}
+				diverged = true
 				return last + " (settled; model expects: " + want + ")"
 			}
 			var mops, outs []string
 			expired := false
+			// reportExpired tells the model which waiters' timers have fired by now (one `expire:<t>` each, in call
+			// order); a waiter within 40 ms of its deadline makes the history inconclusive (false)
+			reportExpired := func() bool {
+				if !wait {
+					return true
+				}
+				var batch []*seqCall
+				for _, c := range calls {
+					if c.expired {
+						continue
+					}
+					peer.mu.Lock()
+					_, inflight := peer.inflight[c.id]
+					peer.mu.Unlock()
+					waiting := false
+					select {
+					case <-c.done: // already returned: if it was waiting, it returned because its timer fired
+						waiting = c.err != nil && strings.Contains(c.err.Error(), "no free connections")
+					default:
+						waiting = !inflight
+					}
+					if !waiting {
+						continue
+					}
+					el := time.Since(c.started)
+					switch {
+					case el > waitTimeout+40*time.Millisecond:
+						batch = append(batch, c)
+					case el > waitTimeout-40*time.Millisecond:
+						return false
+					}
+				}
+				// timers that fired during the same pause are one observation: the states in between are the model's
+				for i, c := range batch {
+					c.expired = true
+					mops = append(mops, fmt.Sprintf("expire:%d", c.id))
+					if i < len(batch)-1 {
+						lines := strings.Split(t.M.Call("pool_script", margsFor(mops)...), ";")
+						outs = append(outs, lines[len(lines)-1])
+					} else {
+						outs = append(outs, settle(mops))
+					}
+				}
+				return true
+			}
 			for _, f := range in[2:] {
+				if diverged {
+					break
+				}
 				o := strings.Split(f[2:], ":")
+				if !reportExpired() {
+					{
+						t.Count("histories-inconclusive-timer-near")
+						if os.Getenv("VERIF_DEBUG") != "" {
+							fmt.Println("inconclusive at", f, mops)
+						}
+						return nil
+					}
+				}
 				peer.mu.Lock()
 				peer.failDial = false
 				peer.mu.Unlock()
 				switch o[0] {
 				case "start":
-					c := &seqCall{id: len(calls), idem: o[1] == "1", done: make(chan struct{})}
+					c := &seqCall{id: len(calls), idem: o[1] == "1", done: make(chan struct{}), started: time.Now()}
 					calls = append(calls, c)
 					peer.mu.Lock()
 					peer.failDial = o[2] == "1"
@@ -251,9 +352,33 @@ func init() {
 						continue
 					}
 					expired = true
-					time.Sleep(waitTimeout + 40*time.Millisecond)
-					mops = append(mops, "expire")
+					time.Sleep(waitTimeout + 60*time.Millisecond)
 					t.Count("op/expire")
+					if !reportExpired() {
+						{
+							t.Count("histories-inconclusive-timer-near")
+							if os.Getenv("VERIF_DEBUG") != "" {
+								fmt.Println("inconclusive at", f, mops)
+							}
+							return nil
+						}
+					}
+					continue
+				case "pause": // let time pass, so that waiters queued at different times expire at different times
+					var ms int
+					fmt.Sscanf(o[1], "%d", &ms)
+					time.Sleep(time.Duration(ms) * time.Millisecond)
+					t.Count("op/pause")
+					if !reportExpired() {
+						{
+							t.Count("histories-inconclusive-timer-near")
+							if os.Getenv("VERIF_DEBUG") != "" {
+								fmt.Println("inconclusive at", f, mops)
+							}
+							return nil
+						}
+					}
+					continue
 				case "closeidle":
 					hc.CloseIdleConnections()
 					mops = append(mops, "closeidle")
@@ -281,18 +406,53 @@ func init() {
 				time.Sleep(time.Millisecond)
 			}
 			hc.CloseIdleConnections()
+			// quiescence (the property's last clause): all calls have returned and the idle connections are closed, so
+			// nothing is counted, nobody is queued and the gauge is zero
+			var q string
+			for i := 0; i < 300; i++ {
+				st := hc.ConnPoolState()
+				q = fmt.Sprintf("count=%d idle=%d wait=%d pending=%d", st.TotalConnNum, st.PoolConnNum, hc.WantConnectionCount(), hc.PendingRequests())
+				if q == "count=0 idle=0 wait=0 pending=0" {
+					break
+				}
+				time.Sleep(2 * time.Millisecond)
+			}
+			if q != "count=0 idle=0 wait=0 pending=0" {
+				fs = append(fs, Finding{Kind: "oracle", Unit: "c10.seq", Class: "not-quiescent-after-all-calls-returned", Impl: q,
+					Expect: "count=0 idle=0 wait=0 pending=0", Note: strings.Join(mops, " ")})
+			}
 			if strings.Contains(strings.Join(outs, ";"), "?") {
 				t.Count("histories-with-a-waiter")
 			}
 			impl := strings.Join(outs, ";")
 			mod := t.M.Call("pool_script", margsFor(mops)...)
+			if os.Getenv("VERIF_DEBUG") != "" {
+				fmt.Printf("mops=%v\nimpl=%s\nmod =%s\nsuspect=%v\n", mops, strings.ReplaceAll(impl, ";", "\n     "), strings.ReplaceAll(mod, ";", "\n     "), suspect)
+			}
+			if impl != mod && suspect {
+				t.Count("histories-inconclusive-by-timing")
+				return fs
+			}
 			if impl != mod {
 				fs = append(fs, Finding{Kind: "corr", Unit: "c10.seq", Class: "pool_script", Impl: impl, Model: mod, Note: strings.Join(mops, " ")})
 			}
 			return fs
-		},
-		Gen: func(t *T) {
+		}
+	}
+}
+
+func c10seqGen(t *T) {
+	{
+		{
 			outs := []string{"clean", "clean", "clean", "closehdr", "badfirst", "badfirst", "midheader", "midbody"}
+			for _, how := range []string{"closehdr", "badfirst", "midbody", "clean"} {
+				// one connection, two waiters queued 150 ms apart; when the first has timed out and the second
+				// has not, the holder's exchange ends: the freed slot / connection belongs to the live waiter
+				t.Do(In{Nn(1), Nn(1), S("start:1:0"), S("start:1:0"), S("pause:250"), S("start:0:0"), S("pause:215"),
+					S("finish:0:" + how + ":0"), S("finish:0:clean:0"), S("finish:0:clean:0")}, true)
+				t.Do(In{Nn(2), Nn(1), S("start:1:0"), S("start:0:0"), S("start:1:0"), S("pause:250"), S("start:0:0"), S("pause:215"),
+					S("finish:1:" + how + ":0"), S("finish:0:clean:0"), S("finish:0:clean:0"), S("finish:0:clean:0")}, true)
+			}
 			for i := 0; i < t.Scale(150, 2500); i++ {
 				in := In{Nn(1 + t.R.Intn(3)), Nn(t.R.Intn(2))}
 				for j, n := 0, 3+t.R.Intn(12); j < n; j++ {
@@ -304,14 +464,19 @@ func init() {
 					case k < 17:
 						in = append(in, S(fmt.Sprintf("finish:%d:%s:%d", t.R.Intn(4), outs[t.R.Intn(len(outs))], b2i(t.R.Intn(6) == 0))))
 					case k < 18:
-						in = append(in, S("expire"))
+						if t.R.Intn(2) == 0 {
+							in = append(in, S("expire"))
+						} else {
+							in = append(in, S(fmt.Sprintf("pause:%d", []int{100, 200, 250, 330}[t.R.Intn(4)])))
+						}
 					default:
 						in = append(in, S("closeidle"))
 					}
 				}
 				t.Do(in, true)
 			}
-		}})
+		}
+	}
 }
 
 func b2i(b bool) int {
